@@ -260,6 +260,7 @@ fn base_sdesc<R: Rng>(rng: &mut R, r: &PortableRegistry) -> SDesc {
     let mut d = SDesc::default();
     d.root = pick_root(rng, r);
     d.alloc = [None, Some("::alloc".to_string())].choose(rng).unwrap().clone();
+    d.via_builders = rng.gen_bool(0.5);
     d
 }
 
